@@ -373,7 +373,7 @@ const (
 	StorageClassAtomicCounter           StorageClass = 10
 	StorageClassImage                   StorageClass = 11
 	StorageClassStorageBuffer           StorageClass = 12
-	StorageClassTaskPayloadWorkgroupEXT StorageClass = 5328
+	StorageClassTaskPayloadWorkgroupEXT StorageClass = 5402
 )
 
 // AddressingModel represents a SPIR-V addressing model.
